@@ -335,3 +335,31 @@ package container
 //@   loop 0: invariant len(results) == len(p) && fresh(results) && soff(results) == 0 && fdIndex == rank(H.batch, rangeindex + 1) && fdIndex <= len(H.fds) && err == nil
 //@   loop 0: invariant forall i int :: 0 <= i && i <= rangeindex ==> (len(H.batch[i]) != 0 ==> results[i].File == nil && results[i].Err != nil)
 //@   loop 0: invariant forall i int :: 0 <= i && i <= rangeindex ==> (len(H.batch[i]) == 0 ==> results[i].File != nil && results[i].Err == nil && fdof(results[i].File) == H.fds[rank(H.batch, i)])
+
+// ---- container file system set-up (C05; model M in /verif/spec/container_M.contracts) ----
+
+// masking only means something in the new root: every maskPath happens after the pivot and the detach
+//@ func container.maskPath props C05
+//@   arith bv
+//@   requires M.pivoted && M.detached && 0 <= M.nmask && M.nmask < 4294967296 && 0 <= M.nm && M.nm < 4294967296
+//@   assigns M.nm, M.m_src, M.m_tgt, M.m_type, M.m_flags, M.m_data, M.nrm, M.rm_tgt, M.rm_flags, M.root_ro
+//@   ensures M.nrm == old(M.nrm) && M.root_ro == old(M.root_ro) && old(M.nm) <= M.nm && M.nm <= old(M.nm) + 1
+//@   callsite syscall.Mount: assert @C05 target == path && flags & 32 == 0
+
+// Order: root tmpfs, chdir into it, every configured mount, then pivot_root into it, lazy unmount and
+// removal of the old root, symlinks, masks, and last a read-only remount of "/".
+//@ func container.initFileSystem props C05
+//@   arith bv
+//@   requires !M.pivoted && !M.detached && M.nm == 0 && M.nrm == 0 && M.nmask == 0 && len(c.Mounts) < 1048576 && len(c.MaskPaths) < 1048576
+//@   requires forall k int :: 0 <= k && k < len(c.Mounts) ==> c.Mounts[k].Flags & 32 == 0
+//@   assigns M.nm, M.m_src, M.m_tgt, M.m_type, M.m_flags, M.m_data, M.nrm, M.rm_tgt, M.rm_flags, M.root_ro, M.pivoted, M.pivot_new, M.pivot_old, M.detached
+//@   ensures result == nil ==> M.pivoted && M.pivot_new == c.ContainerRoot && M.detached && M.root_ro
+//@   callsite syscall.PivotRoot: assert @C05 newroot == c.ContainerRoot && M.nm == 1 + len(c.Mounts) && !M.pivoted
+//@   callsite syscall.Chdir: assert @C05 path == c.ContainerRoot && M.nm == 1 && M.m_tgt == c.ContainerRoot && M.m_type == "tmpfs"
+//@   callsite syscall.Unmount: assert @C05 M.pivoted && target == M.pivot_old && flags == 2
+//@   callsite os.Remove: assert @C05 M.detached && name == M.pivot_old
+//@   callsite os.Symlink: assert @C05 M.pivoted && M.detached
+//@   callsite maskPath: assert @C05 M.pivoted && M.detached
+//@   loop 0: invariant -1 <= rangeindex && rangeindex < len(c.Mounts) && !M.pivoted && !M.detached && M.nm == 2 + rangeindex && 0 <= M.nrm && M.nrm <= 1 + rangeindex
+//@   loop 1: invariant -1 <= rangeindex && rangeindex < len(c.SymbolicLinks) && M.pivoted && M.detached && M.pivot_new == c.ContainerRoot && M.nm == 1 + len(c.Mounts)
+//@   loop 2: invariant -1 <= rangeindex && rangeindex < len(c.MaskPaths) && M.pivoted && M.detached && M.pivot_new == c.ContainerRoot && 0 <= M.nm && M.nm <= 2 + len(c.Mounts) + rangeindex
